@@ -134,9 +134,12 @@ async fn exchange(listener: &TcpListener, addr: &str, sc: &Script, hang_after: D
 }
 
 fn outcome_json(o: &Outcome) -> Value {
+    // hdrs: names lower-cased / values trimmed for comparison (the property does not pin the spelling
+    // the client returns); raw_hdrs: exactly what HttpResponse.headers held
     json!({"r": {"k": o.res, "status": o.status,
-                 "hdrs": o.headers.iter().map(|(k, v)| json!([k, v])).collect::<Vec<_>>(),
+                 "hdrs": o.headers.iter().map(|(k, v)| json!([k.trim().to_ascii_lowercase(), v.trim()])).collect::<Vec<_>>(),
                  "body": o.body},
+           "raw_hdrs": o.headers.iter().map(|(k, v)| json!([k, v])).collect::<Vec<_>>(),
            "kind": o.kind, "msg": o.msg, "ms": o.ms as u64, "req_ok": o.req_ok})
 }
 
@@ -192,7 +195,7 @@ fn segs_for(len: usize, nseg: usize, rng: &mut rand::rngs::StdRng, must: &[usize
     cuts
 }
 
-/// http-replay <in> <out> <seed> <conc> <stall_timeout_ms> <close_timeout_ms>
+/// http-replay <in> <out> <seed> <conc> <stall_timeout_ms> <close_timeout_ms> [hang_factor=5]
 /// in: {"id","bytes":[..],"end":"close"|"stall", optional "nseg","api"}
 pub fn http_replay(a: &[String]) -> i32 {
     quiet_panics();
@@ -217,7 +220,8 @@ pub fn http_replay(a: &[String]) -> i32 {
                               timeout: if stall { t_stall } else { t_close } });
     }
     let metas: Vec<(Vec<usize>, u8, u128)> = scripts.iter().map(|s| (s.segs.clone(), s.api, s.timeout.as_millis())).collect();
-    let outs = run_scripts(scripts, conc, 5);
+    let hang_factor: u32 = a.get(6).map(|v| v.parse().unwrap()).unwrap_or(5);
+    let outs = run_scripts(scripts, conc, hang_factor);
     let mut out = Out::create(&a[1]);
     for ((c, o), m) in cases.iter().zip(outs.iter()).zip(metas.iter()) {
         let mut r = outcome_json(o);
@@ -326,7 +330,7 @@ pub fn http_record(a: &[String]) -> i32 {
                               "hdrs": hdrs.iter().map(|(k, v)| json!([k, v])).collect::<Vec<_>>(),
                               "clnums": cl.map(|c| vec![c]).unwrap_or_default(), "clbad": false, "allwf": true,
                               "body": sent, "end": if stall { "stall" } else { "close" },
-                              "alt": NULL, "althdrs": []},
+                              "alt": NULL, "althdrs": [], "altclnums": [], "altclbad": false},
                         "full_len": hlen + blen, "cut": cut}));
         scripts.push(Script { bytes: full, segs, seg_delay_ms: if nseg > 1 { rng.gen_range(0..3) } else { 0 }, stall,
                               api: (i % 4) as u8, timeout: if stall { t_stall } else { t_close } });
